@@ -216,6 +216,10 @@ func genC13(c *Ctx) any {
 	cs := &C13Case{Cache: r.Chance(2, 3), Preload: r.Chance(1, 2)}
 	cs.Data.Spec = GenDataSpec(c.Rand("data"), r.Range(0, 150), false)
 	utf8Spec(cs.Data.Spec)
+	cs.Process = r.Chance(1, 3)
+	if !cs.Process && r.Chance(1, 2) {
+		cs.Data.Spec.WeirdNames(r) // the wire carries any column name; only the text language needs identifiers
+	}
 	si := infoOf(cs.Data.Spec.Expand())
 	mk := func() *Query {
 		q := &Query{Expr: GenExpr(r, si, r.Range(0, 3), ExprOpts{MaxArity: 3, UnknownCol: r.Chance(1, 12)})}
@@ -238,9 +242,30 @@ func genC13(c *Ctx) any {
 			}
 			batch = append(batch, bq)
 		}
+		if len(batch) > 0 && r.Chance(1, 3) {
+			// the same expression again with a group-by list that a careless key (strings joined
+			// with a separator) would confuse with the first one
+			src := batch[r.Intn(len(batch))]
+			var joined []string
+			for _, g := range src.Q.GroupBy {
+				joined = append(joined, string(g))
+			}
+			variant := &Query{Expr: src.Q.Expr}
+			switch {
+			case len(joined) >= 2:
+				variant.GroupBy = []S{S(strings.Join(joined, []string{",", " ", ";", ", "}[r.Intn(4)]))}
+			case len(joined) == 1:
+				variant.GroupBy = nil
+			default:
+				variant.GroupBy = []S{""}
+			}
+			batch = append(batch, BatchQ{Q: variant})
+			if r.Chance(1, 2) {
+				batch = append(batch, BatchQ{Q: &Query{Expr: src.Q.Expr, GroupBy: src.Q.GroupBy}}) // and an exact duplicate
+			}
+		}
 		cs.Batches = append(cs.Batches, batch)
 	}
-	cs.Process = r.Chance(1, 3)
 	if cs.Process {
 		for i, n := 0, r.Range(3, 8); i < n; i++ {
 			dq := genDrvQuery(r, mk(), []int{0, 400}[r.Intn(2)])
